@@ -1,6 +1,6 @@
 (* C14 - hover and signature help (lsp4spl/src/features/hover.rs, signature_help.rs, the Display
    implementations of spl_frontend/src/table.rs; modelled in Model/Hover.v, Model/SigHelp.v).
-   Statements only; the proofs are in Proofs/HoverProofs.v.
+   Statements only; the proofs are in Proofs/HoverProofs.v, Proofs/HoverValid.v and Proofs/SigHelpValid*.v.
 
    Proved here, for ALL documents (valid program or not):
      C14_hover_answer         shape of every hover answer: an identifier token under the cursor, exactly
@@ -25,10 +25,32 @@
                               the occurrence is bound to under SPL scoping + its documentation block, over
                               exactly the identifier's range
      C14_hover_valid_text     the same for every rendering (Proofs/RenderProofs.v) of such a program
-   NOT proved: [C14_sighelp_full_statement] (signature help inside every argument list of every valid
-   program: validated by correspondence + oracle only), and [C14_hover_full_statement] in its formulation
-   over "documents without diagnostics" (it needs, on top of C14_hover_valid, the completeness of the front
-   end: no diagnostic => the text is a layout of a well-typed abstract program).
+   Proved for every VALID program in every layout (the signature-help half of the functional property;
+   Proofs/SigHelpValidSites.v, SigHelpValidModel.v, SigHelpValid.v, SigHelpValidActive.v):
+     C14_sighelp_valid        for every abstract program p of the grammar whose mandated tree is well-typed, every
+                              text that lexes to p's tokens, every call statement `f(e1, ..., en)` of the tree
+                              (located by the grammar: [program_sites]) and every cursor index from the end of its
+                              `(` to the start of its `)`: the answer is the signature of THE procedure entry
+                              lookup G f - label, documentation block, one label per declared parameter, as many
+                              as the call has arguments - with active parameter = the number of Comma tokens of the
+                              statement that start before the cursor
+     C14_sighelp_valid_arg    ... argument by argument: from the end of separator j (`(` or the j-th comma) to the
+                              start of separator j + 1 (the next comma or `)`) the active parameter is j
+     C14_sighelp_valid_stmt   the interval on which the model really answers: the whole text range of the call
+                              statement (leading comments, callee name, `)` and `;` included; the quirk of
+                              signature_help.rs documented in Model/SigHelp.v)
+     C14_sighelp_valid_none   no call statement's text range contains the cursor => no answer
+     C14_sighelp_valid_full   [C14_sighelp_full_statement] with "document without diagnostics" replaced by "layout
+                              of a well-typed abstract program"
+     C14_sighelp_site_tokens, C14_sighelp_site_commas   what the tokens at a call site are: the slice of the
+                              statement, its `(`, `)`, `;`; its commas are the separators of its own arguments
+     C14_sighelp_valid_text   the same for every rendering of such a program
+   NOT proved: [C14_sighelp_full_statement] and [C14_hover_full_statement] in their formulation over "documents
+   without diagnostics" (they need, on top of C14_hover_valid / C14_sighelp_valid_full, the completeness of the
+   front end: no diagnostic => the text is a layout of a well-typed abstract program).
+   NOT true (finding, kept as the known quirk of signature_help.rs): "outside the parentheses of every call
+   => no answer" - the answer is also given on the callee name, in the comments in front of the statement and
+   between `)` and `;` (C14_sighelp_valid_stmt; C14_sighelp_quirk_ex).
    History: before /repo b909979 the hover half was REFUTED by the model (hover looked every identifier of a
    procedure up in the local table first, also the procedure's own name and type names: defect
    C14-hover-local-before-global, repaired; witnesses in C14_global_position_ex and corpus/C14). *)
@@ -36,6 +58,7 @@ From Coq Require Import String.
 From Spl Require Import Props.C03.
 From Spl Require Import Proofs.GrammarProofs Spec.Typing Proofs.TypingProofs Proofs.RenderProofs Proofs.PipelineText.
 From Spl Require Import Model.Hover Model.SigHelp Model.Fold Proofs.HoverProofs Proofs.HoverValid.
+From Spl Require Import Proofs.SigHelpValidSites Proofs.SigHelpValidModel Proofs.SigHelpValid Proofs.SigHelpValidActive.
 Local Open Scope string_scope.
 Local Open Scope list_scope.
 Local Open Scope N_scope.
@@ -368,6 +391,267 @@ Example C14_hover_valid_eval :
       = [Some (code "proc k(a: int)" ++ doc); Some (code "a: int"); Some (code "int"); Some (code "k: int"); Some (code "int");
          Some (code "t: int"); Some (code "int"); Some (code "t: int"); Some (code "a: int"); Some (code "k: int"); Some (code "t: int")]
       /\ option_map fst (match hover d 0 5 with ROk r => r | RFail _ => None end) = Some (code "int")
+  | _ => False
+  end.
+Proof. vm_compute. split; reflexivity. Qed.
+
+(* ---- the signature-help half, PROVED for every valid program in every layout ----
+   p, G, t as for C14_hover_valid.  The call statements of the tree are located by the grammar:
+   [program_sites p] (Proofs/SigHelpValid.v, SigHelpValidSites.v) lists (owner, (k, c)) - the call statement
+   c = `c1 f c2 ( a c3 ) c4 ;` (c1..c4 comment slots, a the arguments) inside the procedure named owner, through
+   blocks, branches and loops, whose first token (the first comment of c1, or the callee) is token number k.  Its
+   `(` is token k + lp_pos c, its `)` token k + rp_pos c, its `;` token k + len (fl_call c) - 1, its separators
+   (`(`, the commas, `)`) are the tokens k + q for q in [call_seps c]: all from lengths of flattened pieces.
+   [sighelp_answer pe sl index] is the answer the property asks for: label = Display of the procedure entry pe,
+   documentation block of pe, one parameter label per parameter of pe, active parameter = number of Comma tokens
+   of the statement's token slice sl that start before the cursor index (None when pe has no parameter).
+   Commas of nested calls do not exist: arguments are expressions, calls are statements
+   (C14_sighelp_site_commas: the slice holds one comma less than the call has arguments). *)
+
+(* where the tokens of a call site are *)
+Theorem C14_sighelp_site_tokens : forall (p : aprog) (t : text) (toks : list token) owner k c,
+  lex t = Some toks -> map tk toks = flatten p ++ [Eof] -> In (owner, (k, c)) (program_sites p) ->
+  (k + length (fl_call c) <= length toks)%nat /\
+  map tk (firstn (length (fl_call c)) (skipn k toks)) = fl_call c /\
+  (exists first, nth_error toks k = Some first) /\
+  (exists name, nth_error toks (k + length (k_c1 c)) = Some name /\ tk name = Ident (k_f c)) /\
+  (exists lp, nth_error toks (k + lp_pos c) = Some lp /\ tk lp = LParen) /\
+  (exists rp, nth_error toks (k + rp_pos c) = Some rp /\ tk rp = RParen) /\
+  (exists last, nth_error toks (k + length (fl_call c) - 1) = Some last /\ tk last = Semic).
+Proof. exact site_tokens. Qed.
+Print Assumptions C14_sighelp_site_tokens.
+
+Theorem C14_sighelp_site_commas : forall (p : aprog) (t : text) (toks : list token) owner k c,
+  lex t = Some toks -> map tk toks = flatten p ++ [Eof] -> In (owner, (k, c)) (program_sites p) ->
+  length (filter is_comma (firstn (length (fl_call c)) (skipn k toks))) = (nargs (k_a c) - 1)%nat.
+Proof. exact site_commas. Qed.
+Print Assumptions C14_sighelp_site_commas.
+
+(* the sites ARE the call statements of the tree (the vocabulary of C14_sighelp_answer) *)
+Theorem C14_sighelp_sites : forall (p : aprog) pd pd_off h,
+  In (GProc pd, pd_off) (pg_decls (expected p)) -> In h (calls_of_stmts (pd_stmts pd) pd_off) ->
+  exists owner x, In (owner, x) (program_sites p) /\ h = hit_of x /\ option_map id_val (pd_name pd) = Some owner.
+Proof. exact program_calls. Qed.
+Print Assumptions C14_sighelp_sites.
+
+(* between the parentheses *)
+Theorem C14_sighelp_valid : forall (p : aprog) (G : gtable) (t : text) (toks : list token) (d : doc),
+  prog_ok p = true -> well_typed (expected p) G ->
+  lex t = Some toks -> map tk toks = flatten p ++ [Eof] -> new_doc_res t = ODone d ->
+  forall owner k c, In (owner, (k, c)) (program_sites p) ->
+  exists pe, lookup G (k_f c) = Some (GProcE pe) /\ length (pe_params pe) = nargs (k_a c) /\
+  forall lp rp line col,
+    nth_error toks (k + lp_pos c) = Some lp -> nth_error toks (k + rp_pos c) = Some rp ->
+    te lp <= get_insertion_index line col t -> get_insertion_index line col t <= ts rp ->
+    signature_help d line col
+    = ROk (Some (sighelp_answer pe (firstn (length (fl_call c)) (skipn k toks)) (get_insertion_index line col t))).
+Proof. exact sighelp_valid. Qed.
+Print Assumptions C14_sighelp_valid.
+
+(* argument by argument: between separator j and separator j + 1 the active parameter is j *)
+Theorem C14_sighelp_valid_arg : forall (p : aprog) (G : gtable) (t : text) (toks : list token) (d : doc),
+  prog_ok p = true -> well_typed (expected p) G ->
+  lex t = Some toks -> map tk toks = flatten p ++ [Eof] -> new_doc_res t = ODone d ->
+  forall owner k c, In (owner, (k, c)) (program_sites p) ->
+  exists pe, lookup G (k_f c) = Some (GProcE pe) /\ length (pe_params pe) = nargs (k_a c) /\
+  forall j qa qb a b line col,
+    nth_error (call_seps c) j = Some qa -> nth_error (call_seps c) (S j) = Some qb ->
+    nth_error toks (k + qa) = Some a -> nth_error toks (k + qb) = Some b ->
+    te a <= get_insertion_index line col t -> get_insertion_index line col t <= ts b ->
+    signature_help d line col
+    = ROk (Some {| sh_label := show_pentry pe; sh_doc := sig_documentation (pe_doc pe);
+                   sh_params := map show_ventry (pe_params pe);
+                   sh_active := match pe_params pe with [] => None | _ :: _ => Some (N.of_nat j) end |}).
+Proof. exact sighelp_valid_arg. Qed.
+Print Assumptions C14_sighelp_valid_arg.
+
+(* the interval on which the model answers: the whole text range of the call statement *)
+Theorem C14_sighelp_valid_stmt : forall (p : aprog) (G : gtable) (t : text) (toks : list token) (d : doc),
+  prog_ok p = true -> well_typed (expected p) G ->
+  lex t = Some toks -> map tk toks = flatten p ++ [Eof] -> new_doc_res t = ODone d ->
+  forall owner k c, In (owner, (k, c)) (program_sites p) ->
+  exists pe, lookup G (k_f c) = Some (GProcE pe) /\ length (pe_params pe) = nargs (k_a c) /\
+  forall first last line col,
+    nth_error toks k = Some first -> nth_error toks (k + length (fl_call c) - 1) = Some last ->
+    ts first <= get_insertion_index line col t -> get_insertion_index line col t < te last ->
+    signature_help d line col
+    = ROk (Some (sighelp_answer pe (firstn (length (fl_call c)) (skipn k toks)) (get_insertion_index line col t))).
+Proof. exact sighelp_valid_stmt. Qed.
+Print Assumptions C14_sighelp_valid_stmt.
+
+(* ... and nowhere else *)
+Theorem C14_sighelp_valid_none : forall (p : aprog) (G : gtable) (t : text) (toks : list token) (d : doc),
+  prog_ok p = true -> well_typed (expected p) G ->
+  lex t = Some toks -> map tk toks = flatten p ++ [Eof] -> new_doc_res t = ODone d ->
+  forall line col,
+  (forall owner k c first last, In (owner, (k, c)) (program_sites p) ->
+     nth_error toks k = Some first -> nth_error toks (k + length (fl_call c) - 1) = Some last ->
+     get_insertion_index line col t < ts first \/ te last <= get_insertion_index line col t) ->
+  signature_help d line col = ROk None.
+Proof. exact sighelp_valid_none. Qed.
+Print Assumptions C14_sighelp_valid_none.
+
+(* [C14_sighelp_full_statement] with "document without diagnostics" replaced by "layout of a well-typed
+   abstract program" *)
+Theorem C14_sighelp_valid_full : forall (p : aprog) (G : gtable) (t : text) (toks : list token) (d : doc),
+  prog_ok p = true -> well_typed (expected p) G ->
+  lex t = Some toks -> map tk toks = flatten p ++ [Eof] -> new_doc_res t = ODone d ->
+  forall pd pd_off name inf off sl lp rp,
+    In (GProc pd, pd_off) (pg_decls (d_ast d)) ->
+    In (name, inf, off) (calls_of_stmts (pd_stmts pd) pd_off) ->
+    slice (d_toks d) (shift_range (info_range inf) off) = ROk sl ->
+    find (is_kind LParen) sl = Some lp -> find (is_kind RParen) (rev sl) = Some rp ->
+  forall line col, te lp <= get_insertion_index line col t -> get_insertion_index line col t <= ts rp ->
+    exists pe, lookup (d_table d) (id_val name) = Some (GProcE pe) /\
+      signature_help d line col =
+        ROk (Some {| sh_label := show_pentry pe; sh_doc := sig_documentation (pe_doc pe);
+                     sh_params := map show_ventry (pe_params pe);
+                     sh_active := match pe_params pe with
+                                  | [] => None
+                                  | _ :: _ => Some (commas_before sl (get_insertion_index line col t))
+                                  end |}).
+Proof. exact sighelp_valid_full. Qed.
+Print Assumptions C14_sighelp_valid_full.
+
+(* ... from text: every rendering of a valid abstract program *)
+Theorem C14_sighelp_valid_text : forall (p : aprog) (G : gtable) gaps (t : text),
+  prog_ok p = true -> aprog_valid p = true -> gaps_ok (flatten p) gaps -> render_kinds (flatten p) gaps = Some t ->
+  well_typed (expected p) G ->
+  exists toks d, lex t = Some toks /\ map tk toks = flatten p ++ [Eof] /\ new_doc_res t = ODone d /\
+  forall owner k c, In (owner, (k, c)) (program_sites p) ->
+  exists pe, lookup G (k_f c) = Some (GProcE pe) /\ length (pe_params pe) = nargs (k_a c) /\
+  (forall lp rp line col,
+    nth_error toks (k + lp_pos c) = Some lp -> nth_error toks (k + rp_pos c) = Some rp ->
+    te lp <= get_insertion_index line col t -> get_insertion_index line col t <= ts rp ->
+    signature_help d line col
+    = ROk (Some (sighelp_answer pe (firstn (length (fl_call c)) (skipn k toks)) (get_insertion_index line col t)))) /\
+  (forall j qa qb a b line col,
+    nth_error (call_seps c) j = Some qa -> nth_error (call_seps c) (S j) = Some qb ->
+    nth_error toks (k + qa) = Some a -> nth_error toks (k + qb) = Some b ->
+    te a <= get_insertion_index line col t -> get_insertion_index line col t <= ts b ->
+    signature_help d line col
+    = ROk (Some {| sh_label := show_pentry pe; sh_doc := sig_documentation (pe_doc pe);
+                   sh_params := map show_ventry (pe_params pe);
+                   sh_active := match pe_params pe with [] => None | _ :: _ => Some (N.of_nat j) end |})).
+Proof.
+  intros p G gaps t Hok Hv Hg Hr Hwt. destruct (text_layout_of p gaps t Hv Hg Hr) as [toks [Hl Hk]].
+  exists toks, {| d_text := t; d_toks := toks; d_ast := expected p; d_table := G |}.
+  assert (Hd : new_doc_res t = ODone {| d_text := t; d_toks := toks; d_ast := expected p; d_table := G |}).
+  { destruct (no_false_positive_tree _ _ (expected_clean p) Hwt) as [Hb [Ha _]].
+    unfold new_doc_res. now rewrite Hl, (roundtrip p toks Hok Hk), Hb, Ha. }
+  repeat split; try assumption. intros owner k c Hin.
+  destruct (sighelp_valid p G t toks _ Hok Hwt Hl Hk Hd owner k c Hin) as [pe [H1 [H2 H3]]].
+  destruct (sighelp_valid_arg p G t toks _ Hok Hwt Hl Hk Hd owner k c Hin) as [pe' [H1' [_ H3']]].
+  rewrite H1 in H1'. injection H1' as <-. exists pe. repeat split; assumption.
+Qed.
+Print Assumptions C14_sighelp_valid_text.
+
+(* non-vacuity: a call in an else-branch, with a comment between its arguments -
+     // adds
+     proc add(ref a: int, b: int) { a := a + b; }
+     proc main() { var t: int; t := 1; if (t < 2) { } else add(t, // c
+      t * 2); }
+   tokens 44 `add` (bytes 107..110), 45 `(` (110..111), 46 `t`, 47 `,` (112..113), 48 `// c` + line feed (114..119),
+   49 `t` (120..121), 50 `*`, 51 `2`, 52 `)` (125..126), 53 `;` (126..127) *)
+Definition s_b : text := [98].
+Definition s_add : text := str "add".
+Definition c14_q : aprog :=
+  {| a_decls :=
+       [ DProc [str " adds"] c0 s_add c0 (Some (PRef c0 c0 s_a c0 (TName c0 s_int), [(c0, PVal c0 s_b c0 (TName c0 s_int))])) c0 c0 []
+           (SCons (SAsg (nm s_a) c0 (CAdd (ABin (AMul (MFac (FVar (nm s_a)))) c0 APlus (MFac (FVar (nm s_b))))) c0) SNil) c0;
+         DProc c0 c0 s_main c0 None c0 c0 [ var_ s_t s_int ]
+           (SCons (SAsg (nm s_t) c0 (e_f (lit 1)) c0)
+           (SCons (SIfE c0 c0 (CBin (AMul (MFac (FVar (nm s_t)))) c0 CLt (AMul (MFac (lit 2)))) c0 (SBlk c0 SNil c0) c0
+                     (SCal c0 s_add c0
+                        (Some (e_f (FVar (nm s_t)),
+                               [(c0, CAdd (AMul (MBin (MFac (FVar (AName [str " c"] s_t))) c0 MTimes (lit 2))))])) c0 c0))
+            SNil)) c0 ];
+     a_ceof := c0 |}.
+Definition c14_q_call : acall :=
+  {| k_c1 := c0; k_f := s_add; k_c2 := c0;
+     k_a := Some (e_f (FVar (nm s_t)), [(c0, CAdd (AMul (MBin (MFac (FVar (AName [str " c"] s_t))) c0 MTimes (lit 2))))]);
+     k_c3 := c0; k_c4 := c0 |}.
+Definition c14_q_tree : program := Eval vm_compute in expected c14_q.
+Definition c14_q_table : gtable := Eval vm_compute in match build_res c14_q_tree with ROk (_, g) => g | RFail _ => [] end.
+Definition c14_q_text : text :=
+  str "// adds" ++ [10] ++ str "proc add(ref a: int, b: int) { a := a + b; }" ++ [10]
+  ++ str "proc main() { var t: int; t := 1; if (t < 2) { } else add(t, // c" ++ [10] ++ str " t * 2); }".
+
+Example C14_q_well_typed : well_typed (expected c14_q) c14_q_table.
+Proof.
+  change (expected c14_q) with c14_q_tree. split.
+  - unfold wf_program. eexists. split; [unfold c14_q_tree; cbn [pg_decls]; decls|].
+    split; [vm_compute; reflexivity|]. eexists. split; vm_compute; reflexivity.
+  - unfold wt_bodies, c14_q_tree. cbn [pg_decls].
+    repeat (apply Forall_cons; [split; [unfold has_entry; cbn [fst pd_name]; try exact I; vm_compute; discriminate|]|]);
+      [| |apply Forall_nil].
+    + unfold wt_body. cbn [fst snd]. intros pe [name [Hn [Hl _]]]. injection Hn as <-. vm_compute in Hl. injection Hl as <-.
+      cbn [pe_local pd_stmts]. st.
+    + unfold wt_body. cbn [fst snd]. intros pe [name [Hn [Hl _]]]. injection Hn as <-. vm_compute in Hl. injection Hl as <-.
+      cbn [pe_local pd_stmts]. st.
+Qed.
+
+Example C14_q_layout :
+  prog_ok c14_q = true /\
+  match lex c14_q_text with Some toks => map tk toks = flatten c14_q ++ [Eof] | None => False end /\
+  program_sites c14_q = [(s_main, (44%nat, c14_q_call))] /\ call_seps c14_q_call = [1; 3; 8]%nat.
+Proof. vm_compute. repeat split; reflexivity. Qed.
+
+(* the theorems applied: every position behind the `t` of the second argument (byte 121, inside the slot between
+   the comma and `)`) shows add's signature with its documentation and marks parameter 1; so does every position
+   at the start of the comment behind the comma (byte 114); directly behind `(` (byte 111) parameter 0 *)
+Example C14_sighelp_valid_ex :
+  match lex c14_q_text, new_doc_res c14_q_text with
+  | Some toks, ODone d =>
+      let ans j := {| sh_label := str "proc add(ref a: int, b: int)"; sh_doc := Some (str "---" ++ [10] ++ str "adds" ++ [10]);
+                      sh_params := [str "ref a: int"; str "b: int"]; sh_active := Some j |} in
+      (forall line col, get_insertion_index line col c14_q_text = 121%N -> signature_help d line col = ROk (Some (ans 1)))
+      /\ (forall line col, get_insertion_index line col c14_q_text = 114%N -> signature_help d line col = ROk (Some (ans 1)))
+      /\ (forall line col, get_insertion_index line col c14_q_text = 111%N -> signature_help d line col = ROk (Some (ans 0)))
+  | _, _ => False
+  end.
+Proof.
+  destruct C14_q_layout as [Hok [Hl [Hsites Hseps]]].
+  destruct (lex c14_q_text) as [toks|] eqn:El; [|contradiction].
+  destruct (new_doc_res c14_q_text) as [d|s|] eqn:Ed;
+    [|vm_compute in Ed; discriminate Ed|vm_compute in Ed; discriminate Ed].
+  assert (Hin : In (s_main, (44%nat, c14_q_call)) (program_sites c14_q)) by (rewrite Hsites; now left).
+  destruct (C14_sighelp_valid_arg c14_q c14_q_table c14_q_text toks d Hok C14_q_well_typed El Hl Ed _ _ _ Hin) as [pe [Hpe [_ H]]].
+  vm_compute in Hpe. injection Hpe as <-.
+  assert (Et : toks = match lex c14_q_text with Some x => x | None => [] end) by now rewrite El.
+  vm_compute in Et.
+  assert (H1 : forall line col i, get_insertion_index line col c14_q_text = i -> 113 <= i -> i <= 125 ->
+                 signature_help d line col = ROk (Some {| sh_label := str "proc add(ref a: int, b: int)";
+                   sh_doc := Some (str "---" ++ [10] ++ str "adds" ++ [10]);
+                   sh_params := [str "ref a: int"; str "b: int"]; sh_active := Some 1 |})).
+  { intros line col i Hi Ha Hb.
+    rewrite (H 1%nat 3%nat 8%nat {| tk := Comma; ts := 112; te := 113; terr := [] |} {| tk := RParen; ts := 125; te := 126; terr := [] |} line col
+               ltac:(rewrite Hseps; reflexivity) ltac:(rewrite Hseps; reflexivity)
+               ltac:(rewrite Et; reflexivity) ltac:(rewrite Et; reflexivity)
+               ltac:(rewrite Hi; exact Ha) ltac:(rewrite Hi; exact Hb)).
+    vm_compute. reflexivity. }
+  split; [|split].
+  - intros line col Hi. apply (H1 line col 121 Hi); vm_compute; discriminate.
+  - intros line col Hi. apply (H1 line col 114 Hi); vm_compute; discriminate.
+  - intros line col Hi.
+    rewrite (H 0%nat 1%nat 3%nat {| tk := LParen; ts := 110; te := 111; terr := [] |} {| tk := Comma; ts := 112; te := 113; terr := [] |} line col
+               ltac:(rewrite Hseps; reflexivity) ltac:(rewrite Hseps; reflexivity)
+               ltac:(rewrite Et; reflexivity) ltac:(rewrite Et; reflexivity)
+               ltac:(rewrite Hi; vm_compute; discriminate) ltac:(rewrite Hi; vm_compute; discriminate)).
+    vm_compute. reflexivity.
+Qed.
+
+(* ... and evaluated independently of the theorems, at every column of lines 2 and 3 around the call: no
+   answer in front of the callee (line 2 column 53) and behind the `;` (line 3 column 8); parameter 0 from the
+   callee `add` (columns 54..56) up to and including the comma (column 59) - the quirk: the answer is given on
+   the callee name too -, parameter 1 behind the comma, in the comment, on the next line up to and including
+   the `;` (line 3 columns 0..7) *)
+Example C14_sighelp_quirk_ex :
+  match new_doc_res c14_q_text with
+  | ODone d =>
+      let act line c := match signature_help d line c with ROk (Some h) => sh_active h | _ => None end in
+      map (act 2) [53; 54; 55; 56; 57; 58; 59; 60; 61; 64] = [None; Some 0; Some 0; Some 0; Some 0; Some 0; Some 0; Some 1; Some 1; Some 1]
+      /\ map (act 3) [0; 1; 2; 5; 6; 7; 8; 9] = [Some 1; Some 1; Some 1; Some 1; Some 1; Some 1; None; None]
   | _ => False
   end.
 Proof. vm_compute. split; reflexivity. Qed.
